@@ -209,6 +209,11 @@ func c10(c *Ctx) {
 						c.R.Check(strings.HasSuffix(cfgx.CalleeName(ci), ").ToUnstructured"), site(ci)+" from-read-only", c.pos(ci.Pos()), "the source is only converted to unstructured (a copy)", "the source object is passed to "+nameOfCall(ci))
 					}
 				}
+			case *ssa.BinOp:
+				// a nil test reads nothing of the source
+				if !((x.Op == token.EQL || x.Op == token.NEQ) && (cfgx.IsNilConst(x.X) || cfgx.IsNilConst(x.Y))) {
+					c.R.Bad(load.FuncName(fn)+": from use", c.pos(r.Pos()), "the source parameter is used by an unexpected instruction")
+				}
 			default:
 				c.R.Bad(load.FuncName(fn)+": from use", c.pos(r.Pos()), "the source parameter is used by an unexpected instruction")
 			}
